@@ -371,7 +371,21 @@ Section LayerV.
     | Panic => Panic
     end.
 
-  Definition vclear_page (r : request) (c : vcache) : vcache := pc_remove (key_p r) (pc_remove (key_pq r) c).
+  (** [Collection::clear_page]: the two keys of the URI as given and those of its default-redirect target
+      (Model/Cache.v [clear_page]) *)
+  Definition vclear_uri (r : request) (c : vcache) : vcache := pc_remove (key_p r) (pc_remove (key_pq r) c).
+  Definition vhas_uri (r : request) (c : vcache) : bool :=
+    match pc_find (key_pq r) c, pc_find (key_p r) c with None, None => false | _, _ => true end.
+  Definition vclear_page (r : request) (c : vcache) : vcache :=
+    match redirect_target r with
+    | Some r' => vclear_uri r' (vclear_uri r c)
+    | None => vclear_uri r c
+    end.
+  Definition vpage_cleared (r : request) (c : vcache) : bool :=
+    vhas_uri r c || match redirect_target r with
+                    | Some r' => vhas_uri r' (vclear_uri r c)
+                    | None => false
+                    end.
 
   Definition stepV (st : vstate) (now : N) (o : op) : outcome (vstate * N * obs * list request) :=
     match o with
@@ -383,8 +397,7 @@ Section LayerV.
         end
     | OClearPage r =>
         let '(c, hs) := st in
-        let had := match pc_find (key_pq r) c, pc_find (key_p r) c with None, None => false | _, _ => true end in
-        Ok ((vclear_page r c, hs), now, ObCleared true (cache_on && had), [])
+        Ok ((vclear_page r c, hs), now, ObCleared true (cache_on && vpage_cleared r c), [])
     | OClearAll => let '(c, hs) := st in Ok (([], hs), now, ObNone, [])
     | OWait ms => Ok (st, now + ms, ObNone, [])
     end.
@@ -449,7 +462,14 @@ Section LayerV.
   Definition spec_step (s : seen_t) (hs : hstate) (o : op) : seen_t * hstate * obs * list request :=
     match o with
     | OReq r => let '(s', hs', rp, lg, calls) := spec_serve s hs r in (s', hs', ObReply rp lg, calls)
-    | OClearPage r => (seen_clear (rq_path r) s, hs, ObCleared true (cache_on && seen_has_page (rq_path r) s), [])
+    | OClearPage r =>
+        (* the page as given and the page its default-redirect target names *)
+        match redirect_target r with
+        | Some r' =>
+            (seen_clear (rq_path r') (seen_clear (rq_path r) s), hs,
+             ObCleared true (cache_on && (seen_has_page (rq_path r) s || seen_has_page (rq_path r') (seen_clear (rq_path r) s))), [])
+        | None => (seen_clear (rq_path r) s, hs, ObCleared true (cache_on && seen_has_page (rq_path r) s), [])
+        end
     | OClearAll => ([], hs, ObNone, [])
     | OWait _ => (s, hs, ObNone, [])
     end.
